@@ -65,9 +65,10 @@ PROPS["C08"] = {
 PROPS["C17"] = {
     "modules": ["C17"], "required_theorems": ["event_batch_agrees", "C17_holds"], "monitors": ["C17"],
     "fields": ["ret", "net", "sj", "sje", "pj"],
-    "campaign": camp([("lifecycle", 500), ("mixed", 300), ("rollback", 200), ("release", 150), ("chaos", 150)],
-                     [("lifecycle", 8000), ("mixed", 5000), ("rollback", 3000), ("release", 2000), ("chaos", 2000), ("strings", 2000)]),
-    "assumptions": ["events of spawned threads are awaited through the hook's live-thread counter; their order relative to later calls is not asserted"],
+    "campaign": camp([("lifecycle", 500), ("mixed", 300), ("rollback", 200), ("release", 150), ("chaos", 150), ("lifecycle@http", 200), ("strings@http", 100)],
+                     [("lifecycle", 8000), ("mixed", 5000), ("rollback", 3000), ("release", 2000), ("chaos", 2000), ("strings", 2000),
+                      ("lifecycle@http", 2500), ("strings@http", 1500), ("mixed@http", 1500)]),
+    "assumptions": ["in the @http slices the event fields are read from the JSON the library really put on the wire (its own serialiser, real HTTP on loopback)", "events of spawned threads are awaited through the hook's live-thread counter; their order relative to later calls is not asserted"],
 }
 
 DMG_Q = [("damage", 500), ("signing", 300), ("mixed", 300), ("chaos", 200), ("lifecycle", 150)]
@@ -96,17 +97,22 @@ PROPS["C05"] = {
                     "bipatch/integer-encoding are modelled from their pinned source; the model's decoder and SHA-256 are compared with the real crates in the codec check"],
 }
 PROPS["C06"] = {
-    "modules": ["C06", "C05"], "required_theorems": ["C06_holds", "C06_check_failed", "C06_bad_response", "C05_holds"], "monitors": ["C05", "C13"],
+    "modules": ["C06", "C05"], "required_theorems": ["C06_holds", "C06_requests_hold", "C06_check_failed", "C06_bad_response", "C05_holds"], "monitors": ["C05", "C06", "C13"],
     "fields": ["ret", "net", "pj", "pd", "sj"],
-    "campaign": camp([("reissue", 200), ("network", 700), ("download", 400), ("mixed", 250), ("rollback", 150)], [("reissue", 3000), ("network", 12000), ("download", 8000), ("mixed", 4000), ("rollback", 3000), ("chaos", 2000)]),
-    "assumptions": ["reqwest / TLS / socket behaviour is runtime: the model sees only the classified result (error | ok value) of each request"],
+    "campaign": camp([("reissue", 200), ("network", 700), ("download", 400), ("mixed", 250), ("rollback", 150),
+                      ("network@http", 300), ("download@http", 200), ("mixed@http", 150)],
+                     [("reissue", 3000), ("network", 12000), ("download", 8000), ("mixed", 4000), ("rollback", 3000), ("chaos", 2000),
+                      ("network@http", 3000), ("download@http", 2500), ("mixed@http", 2000), ("reissue@http", 1500), ("strings@http", 1000)]),
+    "assumptions": ["the model sees only the classified result (error | ok value) of each request; that the library's real network code (reqwest, handle_network_result, serde on the wire) produces exactly that classification is exercised by the @http slices: the default hooks talk to a scripted HTTP/1.1 server on 127.0.0.1 that enacts failures as 4xx/5xx statuses, closed connections, non-HTTP bytes, truncated and wrongly typed JSON, announced-but-undelivered bodies and short stalls, and successes as length- or close-delimited bodies with optional / null / unknown fields",
+                    "TLS, DNS, proxies, redirects to other hosts and stalls longer than a fraction of a second are not exercised"],
 }
 PROPS["C20"] = {
     "modules": ["C20"], "required_theorems": ["default_channel_agrees", "C20_holds"], "monitors": ["C20"],
     "fields": ["net", "sj", "sje"],
-    "campaign": camp([("strings", 600), ("mixed", 300), ("lifecycle", 200), ("init", 200), ("chaos", 150)],
-                     [("strings", 10000), ("mixed", 5000), ("lifecycle", 4000), ("init", 3000), ("chaos", 3000)]),
-    "assumptions": ["AppConsistent: the compiled-in app id is the same at every initialisation of a history, and stale state.json files are earlier versions of the same file"],
+    "campaign": camp([("strings", 600), ("mixed", 300), ("lifecycle", 200), ("init", 200), ("chaos", 150), ("strings@http", 250), ("mixed@http", 100)],
+                     [("strings", 10000), ("mixed", 5000), ("lifecycle", 4000), ("init", 3000), ("chaos", 3000),
+                      ("strings@http", 3000), ("mixed@http", 2000), ("init@http", 1000)]),
+    "assumptions": ["in the @http slices the request fields are read from the JSON the library really put on the wire (its own serialiser, real HTTP on loopback)", "AppConsistent: the compiled-in app id is the same at every initialisation of a history, and stale state.json files are earlier versions of the same file"],
 }
 
 PROPS["C12"] = {
